@@ -638,6 +638,9 @@ fn est_key(cfg: &Value, sc: &Value, o: &CallObs, evs: &[Value], verdict: &[Strin
         }
     }
     let verify = cfg["verify"].as_bool().unwrap_or(true);
+    if mode == "starttls" && s(sc, "resp") != "success" && o.result != "ok" && evs.iter().any(|e| s(e, "e") == "hello") {
+        return format!("c17:downgrade:handshake-started-after-{}", what);
+    }
     match o.result.as_str() {
         "panic" => format!("c17:panic:{}", what),
         "pending" => format!("c17:hang:{}", what),
@@ -670,7 +673,19 @@ fn est_key(cfg: &Value, sc: &Value, o: &CallObs, evs: &[Value], verdict: &[Strin
     }
 }
 
-async fn run_script(cfg: Value, sc: Value, verdict: Vec<String>, tls: Tls) -> (Value, CallObs, bool) {
+/// One script, with one retry under generous bounds when the outcome could be explained by a loaded machine:
+/// "pending" at the short bound before the server had anything to stall on, or a Timeout on an honest flow.
+async fn run_script(cfg: Value, sc: Value, verdict: Vec<String>, tls: Tls) -> (Value, CallObs, bool, bool) {
+    let (rec, o, ok) = run_script_once(cfg.clone(), sc.clone(), verdict.clone(), tls.clone(), PENDING_OK_MS, SHORT_MS).await;
+    let inconclusive = !ok && ((o.result == "pending" && verdict.iter().any(|v| v == "pending")) || (o.result == "err" && o.cls == "Timeout" && verdict.len() == 1 && verdict[0] == "ok"));
+    if !inconclusive {
+        return (rec, o, ok, false);
+    }
+    let (rec, o, ok) = run_script_once(cfg, sc, verdict, tls, HANG_MS, 2 * SHORT_MS).await;
+    (rec, o, ok, true)
+}
+
+async fn run_script_once(cfg: Value, sc: Value, verdict: Vec<String>, tls: Tls, pending_ms: u64, short_ms: u64) -> (Value, CallObs, bool) {
     let log: Log = Arc::new(Mutex::new(vec![]));
     let mode = s(&cfg, "mode");
     let b = Behave {
@@ -689,12 +704,12 @@ async fn run_script(cfg: Value, sc: Value, verdict: Vec<String>, tls: Tls) -> (V
     }
     let short = s(&cfg, "timeout") == "short";
     if short {
-        st = st.set_conn_timeout(Duration::from_millis(SHORT_MS));
+        st = st.set_conn_timeout(Duration::from_millis(short_ms));
     }
     let url = format!("{}://localhost:{}", if mode == "ldaps" { "ldaps" } else { "ldap" }, l.port);
-    let bound = if verdict.iter().any(|v| v == "pending") { PENDING_OK_MS } else { HANG_MS };
+    let bound = if verdict.iter().any(|v| v == "pending") { pending_ms } else { HANG_MS.max(short_ms + LATE_MS + 500) };
     let o = call_async(st, url.clone(), bound, Some(log.clone())).await;
-    let late = short && o.ms > SHORT_MS + LATE_MS;
+    let late = short && o.ms > short_ms + LATE_MS;
     if o.result != "ok" {
         logev(&log, json!({"e": "result", "r": o.result, "cls": o.cls, "late": late}));
     } else if let Some(rc) = o.bind {
@@ -766,9 +781,12 @@ fn replay_est(tlc_out: &str, report: &str, ndjson: &str, dir: &Path) {
         out
     });
     let mut f = std::io::BufWriter::new(std::fs::File::create(ndjson).unwrap_or_else(|e| infra(&format!("create {}: {}", ndjson, e))));
-    for (v, verdict, (rec, o, ok)) in results {
+    for (v, verdict, (rec, o, ok, retried)) in results {
         let (cfg, sc) = (&v["cfg"], &v["script"]);
         rep.count("vectors");
+        if retried {
+            rep.count("retried_with_generous_bounds");
+        }
         rep.count(&format!("mode_{}", s(cfg, "mode")));
         rep.count(&format!("result_{}", o.result));
         rep.count(&format!("resp_{}", s(sc, "resp")));
@@ -891,6 +909,18 @@ fn row_key(row: &Value, kind: &str, route: &Value, errs: &[String], ob: &Value) 
 
 /// Environment + call for one (row, spelling, api).  Returns None when the row had to be skipped (default ports not bindable).
 async fn run_row(job: RowJob, tls: Tls, dir: PathBuf, short_ms: u64) -> Option<Value> {
+    let r = run_row_once(job.clone(), tls.clone(), dir.clone(), short_ms).await?;
+    // a row that must succeed but ran into the short timeout: once more with a timeout no loaded machine can miss
+    let kind = s(&r["want"], "kind");
+    if (kind == "Ok" || kind == "OkOrErr") && s(&r["obs"], "result") == "err" && s(&r["obs"], "cls") == "Timeout" {
+        let mut r2 = run_row_once(job, tls, dir, 5 * short_ms).await?;
+        r2["retried"] = json!(true);
+        return Some(r2);
+    }
+    Some(r)
+}
+
+async fn run_row_once(job: RowJob, tls: Tls, dir: PathBuf, short_ms: u64) -> Option<Value> {
     let v = &job.vec;
     let row = &v["row"];
     let log: Log = Arc::new(Mutex::new(vec![]));
@@ -1085,6 +1115,9 @@ fn account_row(rep: &mut Report, rec: &Value, f: &mut impl Write) {
     let row = &rec["row"];
     rep.count("observations");
     rep.count(&format!("api_{}", s(rec, "api")));
+    if rec["retried"].as_bool().unwrap_or(false) {
+        rep.count("retried_with_generous_timeout");
+    }
     rep.count(&format!("scheme_{}", s(row, "scheme")));
     rep.count(&format!("kind_{}", s(&rec["want"], "kind")));
     rep.count(&format!("result_{}", s(&rec["obs"], "result")));
@@ -1142,6 +1175,20 @@ fn replay_rows(tlc_out: &str, report: &str, ndjson: &str, spell: &str, apis: &st
     }
     let rt = tokio::runtime::Builder::new_multi_thread().worker_threads(8).max_blocking_threads(64).enable_all().build().unwrap();
     let par: usize = std::env::var("SETUP_PAR").ok().and_then(|x| x.parse().ok()).unwrap_or(16);
+    // observation, not judged: an IPv6 literal under a connector that checks the certificate name
+    let o6 = rt.block_on(async {
+        let log: Log = Arc::new(Mutex::new(vec![]));
+        match listen_tcp("[::1]:0".parse().unwrap(), Behave::honest(), &tls, "url", &log) {
+            Ok(l) => Some(call_async(LdapConnSettings::new().set_connector(tls.custom.clone()), format!("ldaps://[::1]:{}/", l.port), HANG_MS, None).await),
+            Err(_) => None,
+        }
+    });
+    if let Some(o) = o6 {
+        rep.count(&format!("ipv6_literal_strict_name_check_{}{}", o.result, o.cls));
+        if o.result == "err" {
+            rep.notes.push(format!("observation (not judged): ldaps://[::1]:<port>/ against a certificate with subjectAltName IP:::1 and a name-checking connector fails: {}", o.detail.chars().take(160).collect::<String>()));
+        }
+    }
     let (recs_par, recs_ser, skipped) = rt.block_on(async {
         // rows touching 389/636: one at a time, holding the machine-wide lock
         let (tls2, sdir2) = (tls.clone(), sdir.clone());
